@@ -4,6 +4,29 @@ COMMON_NOTE = ('Trusted: Coq 8.16.1 kernel; no axioms declared by the developmen
                '(extraction with ExtrOcamlBasic only + ocaml/driver.ml + harness generators/canonicalisers), whose strength is '
                'bounded by the generators; everything in /repo is modelled, not verified.')
 CHECKS = {
+ 'C01': {
+  'text': 'Theorems (Coq, unbounded: every box shape and every request history): after any accepted activation sequence the training-mode '
+          'weight tree has exactly the active set as keys and the evaluation-mode tree exactly active+candidates, every weight equals '
+          'the inclusion-exclusion sum over the 0/1 cube (Misc.IE), each tree sums to 1, weights depend only on the set (order '
+          'independence), and the look-ahead weights used to score a candidate equal the weights its activation gives. The model Misc.v '
+          'mirrors update_misc_coeff/activate_index statement by statement and is compared exactly (sets and both trees after every request, '
+          'look-ahead trees) with the real Component on exhaustive small boxes and random histories; an independent oracle recomputes '
+          'inclusion-exclusion on the implementation.',
+  'design_ref': 'DESIGN.md section 5, C01',
+  'note': COMMON_NOTE,
+  'technique': 'Coq proof (invariant over request lists, inclusion-exclusion identity) + extracted-model differential correspondence',
+ },
+ 'C18': {
+  'text': 'Theorems (Coq, unbounded): the model of simulate_fit (shadow structures, fallback to the live active set while the shadow set '
+          'is empty) replayed over the accepted requests yields exactly the per-iteration sets and both weight trees of the live run, its '
+          'last state is the live state, one history entry per accepted activation, and every replayed state carries inclusion-exclusion '
+          'weights. Correspondence: real fit() runs on random multi-component systems, live structures and predictions recorded after '
+          'every iteration, compared with System.simulate_fit() yields, with predictions through the replayed structures and with the '
+          'extracted model replay.',
+  'design_ref': 'DESIGN.md section 5, C18',
+  'note': COMMON_NOTE + ' C18: prediction equality is checked on the implementation (not proved) for systems without normalisation and without imputed data.',
+  'technique': 'Coq proof (replay = run on accepted requests) + extracted-model differential correspondence + impl-vs-impl replay oracle',
+ },
  'C02': {
   'text': 'Theorems (Coq, unbounded: every box shape, every admissible or inadmissible request history): the reachable-state invariant '
           '(NoDup, disjoint, within the box, active and active+candidate downward closed, candidates = admissible margin), rejection '
